@@ -240,3 +240,29 @@ Section WithHash.
       end
     end.
 End WithHash.
+
+(* ---------------- __main__.py: the `bits bech32` subcommand ----------------
+   --decode:  raw stdin -> if bits.is_segwit_addr(s): decode_segwit_addr, print network/witness_version/
+              witness_program; else: bip173.decode_bech32_string(s) (constant 1), print hrp/payload.
+   encode:    bip173.bech32_encode(args.hrp, data, witness_version=bech32_chars[wv:wv+1] or b"")   -- the
+              checksum constant is NOT passed (default 1 = Bech32) whatever the witness version is. *)
+Inductive cli_decoded : Type :=
+| CliSegwit (hrp : bytes) (witness_version : Z) (witness_program : bytes)
+| CliBech32 (hrp payload : bytes).
+
+Definition cli_bech32_decode (s : bytes) : result cli_decoded :=
+  b <- is_segwit_addr s ;;
+  if b then
+    '(hrp, witness_version, witness_program) <- decode_segwit_addr s ;;
+    (* bip173.hrp_network_map[hrp]: KeyError for an hrp outside the map *)
+    assert_ (existsb (bytes_eqb hrp) [hrp_bc; hrp_tb; hrp_bcrt]) KeyE ;;;
+    Ok (CliSegwit hrp witness_version witness_program)
+  else
+    '(hrp, payload) <- decode_bech32_string s 1 ;;
+    Ok (CliBech32 hrp payload).
+
+(* witness_version: None | int >= 0 (negative values index from the end in Python: not modelled, not generated) *)
+Definition cli_bech32_encode (hrp data : bytes) (witness_version : option Z) (print_newline : bool) : result bytes :=
+  let witness_version_byte := match witness_version with Some v => chars_slice v | None => [] end in
+  encoded <- bech32_encode hrp data witness_version_byte 1 ;;
+  Ok (if print_newline then encoded ++ [x0a] else encoded).
